@@ -21,12 +21,19 @@ TRUSTED_BASE = ["lp_solve (behind AIToolbox::LP) returns an optimal vertex of th
                 "toIndexPartial / PartialFactorsEnumerator by their mixed-radix meaning (property C14)",
                 "harness glue: link-time interposition (-Wl,--wrap) on add_constraint/solve records the rows and the solution"]
 ASSUMPTIONS = ["all factor sizes positive; every basis tag non-empty, in range, with one value per partial assignment",
-               "a constant basis is requested only together with at least one explicit basis (the code divides by C.bases.size())",
-               "the elimination order eliminates every variable (any order; the code's heuristic order is one of them)"]
+               "FactoredLP with a constant basis and no explicit basis is modelled as repaired by "
+               "fixes/C15-flp-constant-without-basis.patch (needs at least one state factor)",
+               "the elimination order eliminates every variable (any order); proved for the modelled bestVariableToRemove order",
+               "MDP LP, unclipped form: no entry of h, g, R is non-zero with |v| <= 1e-6 (the checkEqualSmall skip is then exact); "
+               "DDN built by push, one parent set per state factor, stochastic rows (C14's hypotheses of backproject_is_expectation)",
+               "makeResult of the MDP LP as repaired (committed fix 3dd4c83)"]
 RULE = ("random factored state spaces (1..3 factors, sizes 1..3), 0..4 basis functions and 0..3 target functions with random "
         "non-empty sorted tags (overlapping, nested, repeated, variables mentioned by no function), dyadic values k/4, optional "
         "constant basis; the flat LP over every joint assignment is built and solved through the same wrapper; non-trivial = "
-        "more than one state factor and at least one tag with more than one key")
+        "more than one state factor and at least one tag with more than one key; 40 % of the cases are cooperative factored MDPs "
+        "(1..3 state factors, 1..2 agents, half of them products of independent components, random DDN, factored rewards with "
+        "zeros, discount 1/4 1/2 3/4, bases incl. an all-ones basis) run through LinearProgramming and the flat LP over every (s,a); "
+        "the returned Q-function is compared with its model and with R + gamma P V_w at every (s,a)")
 
 
 def L(xs): return "%d %s" % (len(xs), " ".join(map(str, xs))) if xs else "0"
@@ -62,7 +69,7 @@ def gen_flp(rng):
     S = [rng.choice([1, 2, 2, 3, 3]) for _ in range(nf)]
     ac = 1 if rng.random() < 0.4 else 0
     nC = rng.choice([0, 1, 1, 2, 2, 3, 3, 4])
-    if ac and nC == 0: nC = 1
+    if ac and nC == 0 and rng.random() < 0.6: nC = 1      # constant basis alone: kept in 40 % of those draws
     nB = rng.choice([0, 1, 1, 2, 2, 3])
     ind = rng.random() < 0.3
     C = [rbasis(rng, S, indicator=ind and rng.random() < 0.8) for _ in range(nC)]
